@@ -532,6 +532,12 @@ def check(case):
                 parts = cls.split("+")
                 if "enum-literal" in parts and len(parts) > 1:
                     redecl[nm] = "enum-literal"
+            # only a redeclared name that the text actually *uses* where it goes wrong can be the cause: the name must
+            # occur on the line of at least one typing error (declaring e.g. `signal std_logic_1164` in an architecture
+            # is legal, and nothing the backend prints inside an architecture refers to the package by name)
+            err_lines = " ".join(lines[e.line - 1] for t, _, e in cl if t == 2 and 1 <= e.line <= len(lines)).lower()
+            err_tokens = set(re.findall(r"[a-z_][a-z0-9_]*", err_lines))
+            redecl = {nm: rc for nm, rc in redecl.items() if nm in err_tokens}
         seen = set()
         for t, sig, e in cl:
             if t != top:
